@@ -331,6 +331,16 @@ def to_vtl_json(
     _components.extend(structure.components.attributes)
 
     for c in _components:
+        if c.dtype not in VTL_DTYPES_MAPPING:
+            raise InputValidationException(
+                f"Component '{c.id}' has SDMX data type '{c.dtype}', "
+                "which cannot be mapped to a VTL data type."
+            )
+        if c.role not in VTL_ROLE_MAPPING:
+            raise InputValidationException(
+                f"Component '{c.id}' has SDMX role '{c.role}', "
+                "which cannot be mapped to a VTL role."
+            )
         _type = VTL_DTYPES_MAPPING[c.dtype]
         _nullability = c.role != SDMX_Role.DIMENSION
         _role = VTL_ROLE_MAPPING[c.role]
